@@ -343,7 +343,10 @@ def main(argv=None):
         keep = set(ck.rng.sample(range(len(grid)), len(grid) // 3))
         cases = [c for i, c in enumerate(grid) if i in keep] + [c for c in cases if c["kind"] != "grid"]
     cases += random_cases(ck.rng, n_rand) + malformed_cases(ck.rng, n_bad)
+    import time
+    t_impl = time.time()
     results = run_impl_batch(cases)
+    ck.coverage["timing_s"] = {"implementation_runs": round(time.time() - t_impl, 1)}
 
     runs = []
     for case, res in zip(cases, results):
@@ -382,7 +385,9 @@ def main(argv=None):
     if have_driver:
         wire = [sx([sh.BACKEND_CODE[be], UNIV, case["setup"], case["b"], pulse_us(case["p"]), case["stream"]])
                 for case, be, _ in runs]
+        t_model = time.time()
         outs = common.run_driver("C07", wire)
+        ck.coverage["timing_s"]["model_runs"] = round(time.time() - t_model, 1)
         for (case, be, run), w, mo in zip(runs, wire, outs):
             if mo == [-999]:
                 ck.disagreement("ingest", "driver could not decode a case", {"case": w})
